@@ -49,6 +49,9 @@ def gen_scenario(rng, small=False):
         adj["outbuf_overflow"] = rng.choice([1000, 5000])
     if rng.random() < 0.3:
         adj["outbuf_high_watermark"] = rng.choice([256, 4096])
+        # send_bytes above the watermark stalls producers for good (finding
+        # F-24, decided by C12/C05); keep C04's scenarios out of that corner
+        adj["send_bytes"] = min(adj["send_bytes"], 64)
     if rng.random() < 0.3:
         adj["recv_bytes"] = rng.choice([64, 300])
     sizes = [0, 1, 7, 100, sndbuf - 1, sndbuf, sndbuf + 1, 2 * sndbuf + 3]
@@ -107,6 +110,12 @@ def gen_scenario(rng, small=False):
 
 
 DIRECTED = [
+    # the worker's end-of-service send_continue against the I/O thread's flush (finding F-23): a response
+    # larger than the send buffer, then a pipelined expecting request that is still being received
+    # (per-send caps leave output pending while the socket stays writable, so the window is one pre-emption away)
+    {"adj": {"threads": 1, "channel_request_lookahead": 2, "send_bytes": 1, "recv_bytes": 64}, "sndbuf": 65536,
+     "conns": [{"requests": [{"n": 2500, "k": "cl"}, {"m": "POST", "body": 300, "expect": True, "n": 1, "k": "cl"}, {"n": 5, "k": "cl"}],
+                "sndbuf": 65536, "send_caps": [300, 300, 0]}]},
     # scenario 0: two workers, lookahead 1, responses larger than the send buffer (both threads flush)
     {"adj": {"threads": 2, "channel_request_lookahead": 1, "send_bytes": 1}, "sndbuf": 512,
      "conns": [{"requests": [{"n": 1500, "k": "chunks", "w": 300}, {"n": 700, "k": "write", "w": 100}, {"n": 20, "k": "cl"}], "sndbuf": 512,
@@ -129,11 +138,11 @@ def plan(tier, seed):
     for i in range(nshards):
         specs.append({"mode": "random", "seed": seed * 1009 + i, "n": per})
     # systematic single pre-emption: directed scenarios always, generated ones in addition
-    nenum = 2 if tier == "quick" else 40
+    nenum = 3 if tier == "quick" else 40
     parts = 16 if tier == "quick" else 8
     for s in range(min(nenum, len(DIRECTED))):
         for p in range(parts):
-            specs.append({"mode": "enum", "scn": DIRECTED[s], "part": p, "parts": parts, "cap": 1200 if tier == "quick" else None})
+            specs.append({"mode": "enum", "scn": DIRECTED[s], "part": p, "parts": parts, "cap": 900 if tier == "quick" else None})
     for s in range(max(0, nenum - len(DIRECTED))):
         for p in range(parts):
             specs.append({"mode": "enum", "gen_seed": seed * 7 + s, "part": p, "parts": parts, "cap": None})
